@@ -39,6 +39,7 @@ TypeOf ==
       [] Ty = "Point"     -> Adt("Point", <<>>)
       [] Ty \in {"ListInt", "ListIntSmall"} -> [t |-> "List", e |-> TInt]
       [] Ty = "TupIntBool" -> [t |-> "Tuple", es |-> <<TInt, TBool>>]
+      [] Ty = "TupListSmall" -> [t |-> "Tuple", es |-> <<[t |-> "List", e |-> TInt], TInt>>]
       [] Ty = "TupColorOpt" -> [t |-> "Tuple", es |-> <<Adt("Color", <<>>), Adt("Option", <<TInt>>)>>]
       [] Ty = "PairIntBool" -> [t |-> "Pair", a |-> TInt, b |-> TBool]
 
@@ -119,7 +120,16 @@ SmallListPats ==
     {Discard, PVar, [p |-> "list", ps |-> <<>>, tail |-> "none"]}
     \cup UNION {{[p |-> "list", ps |-> ps, tail |-> tl] : ps \in SeqsN({Discard, [p |-> "int", n |-> 1]}, n), tl \in {"none", "discard"}} : n \in 1..2}
     \cup {[p |-> "list", ps |-> <<PVar>>, tail |-> tl] : tl \in {"none", "discard"}}
-Init == \E n \in 1..K : cl \in SeqsN(IF Ty = "ListIntSmall" THEN SmallListPats ELSE Pats(TypeOf, 2), n)
+\* "TupListSmall": (List<Int>, Int) - a list column beside a refutable column, so that clauses that are a wildcard in the list column
+\* sit between list patterns (the decision tree must carry them into every list case it creates)
+TupListPats ==
+    {Discard} \cup
+    {[p |-> "tuple", ps |-> <<a, b>>] :
+        a \in {Discard, [p |-> "list", ps |-> <<>>, tail |-> "none"], [p |-> "list", ps |-> <<[p |-> "int", n |-> 1]>>, tail |-> "discard"],
+               [p |-> "list", ps |-> <<Discard, Discard>>, tail |-> "none"]},
+        b \in {Discard, [p |-> "int", n |-> 1]}}
+PatSet == IF Ty = "ListIntSmall" THEN SmallListPats ELSE IF Ty = "TupListSmall" THEN TupListPats ELSE Pats(TypeOf, 2)
+Init == \E n \in 1..K : cl \in SeqsN(PatSet, n)
 Next == UNCHANGED cl
 Spec == Init /\ [][Next]_cl
 
